@@ -185,7 +185,7 @@ fn run_to_path(kind: CoordKind, style: PathStyle, pts: &[(i32, i32)], flags: &[u
 }
 
 fn part_to_path(cfg: &Config, s: &mut Session, rng: &mut Rng) {
-    let n = if cfg.thorough() { 1_000_000 } else { 120_000 };
+    let n = if cfg.thorough() { 3_000_000 } else { 120_000 };
     let bvals = boundary_i32();
     for it in 0..n {
         let kind = *rng.pick(&[CoordKind::F26, CoordKind::Fx, CoordKind::I32, CoordKind::F32]);
@@ -407,7 +407,7 @@ fn expected_size(c: &OutlineCounts, emb: bool) -> usize {
 }
 
 fn part_carve(cfg: &Config, s: &mut Session, rng: &mut Rng) {
-    let n = if cfg.thorough() { 600_000 } else { 80_000 };
+    let n = if cfg.thorough() { 2_000_000 } else { 80_000 };
     for _ in 0..n {
         let small = |rng: &mut Rng| -> usize {
             match rng.below(8) {
@@ -683,7 +683,7 @@ fn part_fonts(cfg: &Config, s: &mut Session, rng: &mut Rng) {
     let fonts = load_fonts();
     let refs: Vec<FontRef> = fonts.iter().map(|f| FontRef::new(&f.data).unwrap()).collect();
     let collections: Vec<OutlineGlyphCollection> = refs.iter().map(|f| f.outline_glyphs()).collect();
-    let configs_per_font = if cfg.thorough() { 16 } else { 5 };
+    let configs_per_font = if cfg.thorough() { 40 } else { 5 };
     for (fi, font) in refs.iter().enumerate() {
         let n_glyphs = font.maxp().map(|m| m.num_glyphs() as u32).unwrap_or(0);
         let axis_count = font.axes().len();
@@ -1114,7 +1114,7 @@ fn expand_tree(f: &SFont, gid: usize, depth: usize, out: &mut Vec<i64>, budget: 
 }
 
 fn part_counts(cfg: &Config, s: &mut Session, rng: &mut Rng) {
-    let n_fonts = if cfg.thorough() { 4000 } else { 400 };
+    let n_fonts = if cfg.thorough() { 10000 } else { 400 };
     for fi in 0..n_fonts {
         let n = 2 + rng.below(10) as usize;
         let mut glyphs: Vec<SGlyph> = vec![SGlyph::Empty];
@@ -1379,7 +1379,7 @@ fn state_font(rng: &mut Rng, sig: u64) -> SFont {
 }
 
 fn part_state_fonts(cfg: &Config, s: &mut Session, rng: &mut Rng) {
-    let n_fonts = if cfg.thorough() { 40 } else { 12 };
+    let n_fonts = if cfg.thorough() { 80 } else { 12 };
     let mut datas: Vec<(u64, Vec<u8>)> = vec![];
     // the all-writing and the nothing-writing font are always present
     let mut sigs: Vec<u64> = vec![0xFFFFF, 0, 0x3FFFF & 0x2AAAA, 0x15555];
@@ -1396,9 +1396,25 @@ fn part_state_fonts(cfg: &Config, s: &mut Session, rng: &mut Rng) {
         return;
     }
     let pool: Vec<OutlineGlyphCollection> = refs.iter().map(|f| f.outline_glyphs()).collect();
+    // observation only (API misuse, outside the property): an instance configured for one font used to
+    // draw a glyph of another font whose cvt / twilight sizes differ
+    for i in 0..pool.len().min(6) {
+        for j in 0..pool.len().min(6) {
+            if i == j {
+                continue;
+            }
+            let Ok(Ok(inst)) = catch(|| HintingInstance::new(&pool[i], Size::new(16.0), LocationRef::default(), options_from(0, 1))) else { continue };
+            let Some(g) = pool[j].get(GlyphId::new(1)) else { continue };
+            let d = draw_hinted(&g, &inst, false, Mem::Library);
+            s.count(if d.result.starts_with("panic") { "cross-font-instance:panic" } else if d.ok { "cross-font-instance:ok" } else { "cross-font-instance:err" });
+            if d.result.starts_with("panic") && !s.notes.iter().any(|n| n.starts_with("cross-font")) {
+                s.notes.push(format!("cross-font instance use (not part of C12): {}", d.result));
+            }
+        }
+    }
     for (i, (sig, _)) in datas.iter().enumerate() {
         let axes = if sig >> 19 & 1 == 1 { 2 } else { 0 };
-        font_battery(cfg, s, rng, &format!("synth-state-{sig:05x}"), &pool[i], 11, axes, true, &pool, if cfg.thorough() { 16 } else { 6 }, true);
+        font_battery(cfg, s, rng, &format!("synth-state-{sig:05x}"), &pool[i], 11, axes, true, &pool, if cfg.thorough() { 24 } else { 6 }, true);
     }
 }
 
